@@ -159,6 +159,15 @@ def dynamic_part(ctx):
             S.call(f"GQR.fit(B, {opt})", lambda: ((B.copy(),), {"idx_constrained": L.copy(), "n_sensors": N, "n_const_sensors": s,
                                                                  "all_sensors": A.copy(), "constraint_option": opt}),
                    lambda b, **kw: GQR().fit(b, **kw))
+        # memory layouts: column-major basis matrices and single-mode bases (both C- and F-contiguous)
+        BF = np.asfortranarray(B)
+        for nm_, mk_ in (("QR", QR), ("CCQR", CCQR), ("GQR", GQR)):
+            S.call(f"{nm_}.fit(B column-major)", lambda: ((np.asfortranarray(B.copy()),), {}), lambda b, mk_=mk_: mk_().fit(b))
+            S.call(f"{nm_}.fit(B single mode)", lambda: ((B[:, :1].copy(),), {}), lambda b, mk_=mk_: mk_().fit(b))
+            S.call(f"{nm_}.fit(x.T of C-ordered data)", lambda: ((X.copy(),), {}), lambda x, mk_=mk_: mk_().fit(x.T))
+        S.call("GQR.fit(B column-major, max_n)", lambda: ((np.asfortranarray(B.copy()),), {"idx_constrained": L.copy(), "n_sensors": N, "n_const_sensors": s,
+                                                                                          "all_sensors": A.copy(), "constraint_option": "max_n"}),
+               lambda b, **kw: GQR().fit(b, **kw))
         # refit of one optimizer object on the same matrix (call sequences)
         oc = CCQR(sensor_costs=costs.copy())
         S.call("CCQR.fit;fit(B)", lambda: ((B.copy(),), {}), lambda b: (oc.fit(b), oc.fit(b)))
